@@ -1,4 +1,5 @@
 import Vata.Ref
+import Vata.NfaEmbed
 /-! # Text formats of the line protocol (see `harness/vharness.cc`) -/
 namespace Vata
 
@@ -56,6 +57,22 @@ def parseRel? (s : String) : Option Rel :=
 /-- `key=value` tokens of a result line -/
 def kv (toks : List String) (key : String) : Option String :=
   toks.findSome? (fun t => if t.startsWith (key ++ "=") then some ((t.drop (key.length + 1)).toString) else none)
+
+/-- NFA = `trans|starts|finals`, trans = `src,sym,dst;...` -/
+def parseNfa? (s : String) : Option W.NFA :=
+  match s.splitOn "|" with
+  | [ts, ss, fs] => do
+    let trans ← (splitC ts ';').mapM (fun e => match e.splitOn "," with
+      | [a, b, c] => do pure ((← a.toNat?), (← b.toNat?), (← c.toNat?))
+      | _ => none)
+    let start ← natList? ss ','
+    let final ← natList? fs ','
+    pure ⟨start, final, trans⟩
+  | _ => none
+
+def showNfa (N : W.NFA) : String :=
+  ";".intercalate (N.trans.map (fun e => s!"{e.1},{e.2.1},{e.2.2}")) ++ "|" ++
+    ",".intercalate (N.start.map toString) ++ "|" ++ ",".intercalate (N.final.map toString)
 
 def showRule (r : Rule) : String :=
   s!"{r.sym}:{",".intercalate (r.kids.map toString)}>{r.parent}"
